@@ -4,7 +4,6 @@ set -e
 cd "$(dirname "$0")"
 mkdir -p build evidence
 python3 tools/gen.py
-for h in tools/gen_sync.py; do [ -f "$h" ] && python3 "$h" || true; done
 cd lean
 lake build 2>&1 | tail -5
 test -x .lake/build/bin/lecdrv
